@@ -64,6 +64,25 @@ pub fn gen_stream(cx: &Cx) -> (Vec<u8>, Vec<&'static str>) {
             5 => {
                 // damaged frame line
                 let mut l = gen_frame(cx).to_bytes_with_newline();
+                if cx.chance(1, 3) {
+                    // a line that is shorter (or longer) than its own length field announces: the length
+                    // digits are changed, or some characters in the middle went missing
+                    cx.probe("line_length_disagrees_with_its_length_field");
+                    if cx.chance(1, 2) || l.len() < 16 {
+                        let declared = (l.len() as u64 - 13) / 2;
+                        let other = (declared + 1 + cx.draw(60)) % 256;
+                        let hex = format!("{:02X}", other).into_bytes();
+                        l[1] = hex[0];
+                        l[2] = hex[1];
+                    } else {
+                        let cut = 1 + cx.draw(((l.len() - 13) as u64).min(12)) as usize;
+                        let at = 9 + cx.draw((l.len() - 13 - cut + 1) as u64) as usize;
+                        l.drain(at..at + cut);
+                    }
+                    out.extend(l);
+                    kinds.push("wrong-length");
+                    continue;
+                }
                 let k = 1 + cx.draw(3);
                 for _ in 0..k {
                     let body = l.len() - 2;
